@@ -2,11 +2,11 @@ package main
 
 import (
 	"fmt"
-	"os"
-	"sort"
 	"go/ast"
 	"go/token"
 	"go/types"
+	"os"
+	"sort"
 	"strings"
 
 	"golang.org/x/tools/go/ssa"
@@ -257,20 +257,20 @@ func (e *Env) localVars(st *State, fr *Frame) map[string]Val {
 // ---------------------------------------------------------------------------
 
 type FuncResult struct {
-	Key       string
-	Fn        string
-	Instrs    int
-	Paths     int
-	Obls      []*Obligation
-	Err       error
-	Trusted   map[string]int
-	Dropped   map[string]int
-	Inlined   map[string]int
-	Havocked  map[string]int
-	Notes     map[string]int
-	Bounded   bool
-	Env       *Env
-	IsTrusted bool
+	Key        string
+	Fn         string
+	Instrs     int
+	Paths      int
+	Obls       []*Obligation
+	Err        error
+	Trusted    map[string]int
+	Dropped    map[string]int
+	Inlined    map[string]int
+	Havocked   map[string]int
+	Notes      map[string]int
+	Bounded    bool
+	Env        *Env
+	IsTrusted  bool
 	ClauseErrs []string
 }
 
@@ -390,9 +390,12 @@ func verifyFunc(p *Program, cx *Contracts, cfg *PropConfig, ct *Contract) *FuncR
 	}
 	for _, cs := range ct.CallSites {
 		if e.callSiteHits[cs.Clause.Label] == 0 {
-			e.fail("callsite clause [%s] of %s never matched a call of %s", cs.Clause.Label, ct.Key, cs.Callee)
-			res.Err = e.err
-			return res
+			// the contract requires a call that no explored path makes: a failed obligation with its stable name
+			// (an obligation that exists on the unchanged tree must not silently disappear)
+			o := &Obligation{Fn: e.curName, Kind: "callsite", Label: cs.Clause.Label, Goal: "false", Detail: "at call of " + cs.Callee + ": " + cs.Clause.Text, Pos: e.pos(fn.Pos()), decls: e.D, env: e}
+			o.Status, o.Solver, o.precomputed = "sat", "scan", true
+			o.Model = fmt.Sprintf("no explored path of %s calls %s: the call the clause [%s] is about is absent", ct.Key, cs.Callee, cs.Clause.Label)
+			e.obls = append(e.obls, o)
 		}
 	}
 	// vacuity guard: every return site must be reachable by at least one satisfiable path
